@@ -1,21 +1,107 @@
 import SpVerif.Model.PackFS
+/-!
+# C19 — transient filesystem faults never yield a silently wrong packed dataset
+
+The logic half, for the retry-wrapped blocks of `pack_partitions_to_parquet` (`@retryit`): a block whose effect on the
+filesystem is a function `f` such that every state a failed attempt can leave (`Leaves`) still satisfies `f s' = f s₀` ends,
+after any number of failed attempts followed by one that runs through, exactly where a fault-free run ends; if no attempt runs
+through, the block raises.  The guarded move, the removal and the (over)writing of a file are such blocks.  That the whole
+function consists of such blocks, that an exhausted retry budget propagates as an exception, and what the real filesystem does
+below the fsspec call boundary is what the exhaustive single-fault enumeration on the real code checks (partial, DESIGN §3 C19).
+-/
 namespace SpVerif
 open PackFS
+
+/-- outcome of a retried block: the attempts `leave` intermediate states, the last attempt either runs through or the budget is
+exhausted (raise) -/
+inductive Outcome (S : Type) where
+  | done (s : S)
+  | raised (s : S)
+
+/-- the block either raised or ended in `target` -/
+def Outcome.raisedOrEq {S : Type} (o : Outcome S) (target : S) : Prop :=
+  match o with
+  | .done s => s = target
+  | .raised _ => True
+
+/-- `retry` semantics: `failed` lists, for each failed attempt, the state it leaves behind (a function of the state it
+started from, chosen by the fault schedule); then either one attempt runs the whole block (`f`) or the budget is exhausted -/
+def retryRun {S : Type} (f : S → S) (failed : List (S → S)) (succeeds : Bool) (s₀ : S) : Outcome S :=
+  let s := failed.foldl (fun s leave => leave s) s₀
+  if succeeds then .done (f s) else .raised s
+
+/-- **retry block**: if every state a failed attempt can leave is one from which the block still ends where a fault-free run
+ends, then under every fault schedule the block either raises or ends in the fault-free state -/
+theorem C19_retry_block {S : Type} (f : S → S) (s₀ : S) (failed : List (S → S)) (succeeds : Bool)
+    (hleave : ∀ leave ∈ failed, ∀ s, f s = f s₀ → f (leave s) = f s₀) :
+    (retryRun f failed succeeds s₀).raisedOrEq (f s₀) := by
+  unfold retryRun Outcome.raisedOrEq
+  simp only
+  cases succeeds with
+  | false => simp
+  | true =>
+    simp only [if_true]
+    have : ∀ (l : List (S → S)) (s : S), (∀ leave ∈ l, ∀ s, f s = f s₀ → f (leave s) = f s₀) → f s = f s₀ →
+        f (l.foldl (fun s leave => leave s) s) = f s₀ := by
+      intro l
+      induction l with
+      | nil => intro s _ hs; exact hs
+      | cons g gs ih =>
+        intro s hl hs
+        exact ih (g s) (fun lv hlv => hl lv (by simp [hlv])) (hl g (by simp) s hs)
+    exact this failed s₀ hleave rfl
+
 /-- `move_retry` is idempotent: repeating a completed move changes nothing (its `exists(p1)` guard) -/
-theorem C19_move_idempotent (s : St) (m : Nat × Nat) (h : m.1 ≠ m.2) :
-    applyMove (applyMove s m) m = applyMove s m := by
+theorem C19_move_idempotent (s : St) (m : Nat × Nat) (h : m.1 ≠ m.2) : applyMove (applyMove s m) m = applyMove s m := by
   unfold applyMove
-  cases hf : s.find? (fun e => e.1 == m.1) with
-  | none => simp [hf]
-  | some e =>
-    simp only
-    have : ((m.2, e.2) :: s.filter (fun x => x.1 != m.1 && x.1 != m.2)).find? (fun e => e.1 == m.1) = none := by
-      rw [List.find?_cons]
-      have h1 : ((m.2, e.2).1 == m.1) = false := by simp; exact fun h' => h h'.symm
-      rw [h1]
-      simp only [List.find?_eq_none, List.mem_filter]
-      intro x hx
-      simp at hx ⊢
-      exact hx.2.1
-    rw [this]
+  by_cases ha : s.any (fun e => e.1 == m.1) = true
+  · simp only [ha, if_true]
+    have : ((s.filter (fun e => e.1 == m.1)).map (fun e => (m.2, e.2)) ++ s.filter (fun e => e.1 != m.1 && e.1 != m.2)).any
+        (fun e => e.1 == m.1) = false := by
+      rw [Bool.eq_false_iff]
+      intro hc
+      simp only [List.any_eq_true, List.mem_append, List.mem_map, List.mem_filter] at hc
+      obtain ⟨x, hx, hk⟩ := hc
+      rcases hx with ⟨e, _, rfl⟩ | ⟨_, hne⟩
+      · simp only [beq_iff_eq] at hk; exact h hk.symm
+      · simp only [Bool.and_eq_true, bne_iff_ne, ne_eq] at hne
+        simp only [beq_iff_eq] at hk; exact hne.1 hk
+    simp [this]
+  · simp [ha]
+
+/-- a failed `move_retry` attempt leaves the state untouched or already moved; either way the block ends in the moved state -/
+theorem C19_move_restartable (s₀ : St) (m : Nat × Nat) (h : m.1 ≠ m.2) (failed : List Bool) (succeeds : Bool) :
+    (retryRun (fun s => applyMove s m) (failed.map (fun moved => if moved then (fun s => applyMove s m) else id)) succeeds s₀).raisedOrEq
+      (applyMove s₀ m) := by
+  apply C19_retry_block (f := fun s => applyMove s m)
+  intro leave hl s hs
+  simp only [List.mem_map] at hl
+  obtain ⟨b, _, rfl⟩ := hl
+  cases b with
+  | false => simpa using hs
+  | true => simp only [if_true]; rw [C19_move_idempotent s m h]; exact hs
+
+/-- removing a path (`rm_retry`) and (over)writing a file (`write_*`): the state a failed attempt leaves differs from the start
+state at most at that path (not removed yet / half removed; missing / truncated / complete file), and the block's effect does
+not depend on what was at the path -/
+def putFile (path : Nat) (content : Option Nat) (s : St) : St :=
+  (s.filter (fun e => e.1 != path)) ++ (match content with | some c => [(path, c)] | none => [])
+
+theorem C19_write_restartable (path : Nat) (content : Option Nat) (s₀ : St) (junk : List (Option Nat)) (succeeds : Bool) :
+    (retryRun (putFile path content) (junk.map (fun j => putFile path j)) succeeds s₀).raisedOrEq (putFile path content s₀) := by
+  apply C19_retry_block (f := putFile path content)
+  intro leave hl s hs
+  simp only [List.mem_map] at hl
+  obtain ⟨j, _, rfl⟩ := hl
+  rw [← hs]
+  unfold putFile
+  congr 1
+  rw [List.filter_append, List.filter_filter]
+  have : (match j with | some c => [(path, c)] | none => ([] : St)).filter (fun (e : Nat × Nat) => e.1 != path) = [] := by
+    cases j <;> simp
+  rw [this, List.append_nil]
+  apply List.filter_congr
+  intro e _
+  simp
+
 end SpVerif
